@@ -57,7 +57,7 @@ _add(_c("lsn_orth_extrap", "LSN", [2, 2], [3, 4, 3], 1, "lsn", dict(orthogonal=T
         fpol="quad", pressure="quad", psi1d_rmax=1.67))
 
 CORE_CAMPAIGN = ["lsn_orth", "usn_orth", "lsn_orth_rev", "lsn_nonorth", "lsn_nonorth_rev", "cdn_orth", "ldn_orth",
-                 "udn_nonorth", "core_orth", "lim_orth", "lsn_orth_x2", "lsn_orth_g2", "lsn_orth_extrap"]
+                 "udn_nonorth", "core_orth", "lim_orth", "lsn_orth_x2", "lsn_orth_g2", "lsn_orth_extrap", "udn_orth"]
 
 # ---- extended campaign (thorough tier) ------------------------------------------------
 _add(_c("usn_nonorth", "USN", [2, 2], [3, 4, 3], 1, "usn", dict(orthogonal=False), fpol="quad"))
@@ -75,7 +75,7 @@ _add(_c("lsn_orth_wide", "LSN", [3, 3], [4, 6, 4], 1, "lsn", dict(orthogonal=Tru
 _add(_c("lsn_orth_n50", "LSN", [2, 2], [3, 4, 3], 1, "lsn", dict(orthogonal=True, finecontour_Nfine=50), fpol="quad", pressure="quad", wall="slanted"))
 _add(_c("lsn_orth_n200", "LSN", [2, 2], [3, 4, 3], 1, "lsn", dict(orthogonal=True, finecontour_Nfine=200), fpol="quad", pressure="quad", wall="slanted"))
 
-EXTENDED_CAMPAIGN = CORE_CAMPAIGN + ["usn_nonorth", "cdn_nonorth", "udn_orth", "ldn_nonorth", "lsn_orth_dct", "lsn_orth_g0", "lsn_orth_lop",
+EXTENDED_CAMPAIGN = CORE_CAMPAIGN + ["usn_nonorth", "cdn_nonorth", "ldn_nonorth", "lsn_orth_dct", "lsn_orth_g0", "lsn_orth_lop",
                                      "cdn_orth_uo", "ldn_orth_uo", "core_nonorth", "lim_orth_g2", "lsn_orth_wide", "lsn_orth_n50", "lsn_orth_n200"]
 
 
